@@ -123,6 +123,14 @@ def build(kind, default, pos, how, ch, with_context=True, excl=()):
             p["rettype"] = I
             p["exec"] = [f"{tname} = 1"]
         m["procs"].insert(ch.int(len(m["procs"]) + 1), p)
+        if kind == "function" and "local_type_namesake" not in excl and ch.bool(1, 2):
+            # another procedure of the module declares a type of that name for itself: this says nothing about the function
+            m["procs"].append({"k": "subroutine", "name": "holder_of_local_type", "args": [], "prefix": [], "exec": [], "procs": [],
+                               "uses": [], "doc": None, "access": None,
+                               "decls": [{"d": "type", "name": tname, "abstract": False, "extends": None, "access": None,
+                                          "access_how": "attr", "sequence": False, "private_comps": False,
+                                          "comps": [_var("local_comp", I)], "private_binds": False, "binds": [],
+                                          "finals": [], "doc": None}]})
     elif kind in ("generic", "operator", "generic2"):
         if kind in ("generic", "generic2"):
             spec = {"k": "subroutine", "name": "spec_of_target", "args": ["a"], "prefix": [], "decls": [_var("a", I)],
